@@ -5,6 +5,34 @@ import ws
 
 PATHS = ['a', 'b', 'd/c', 'd/e']
 
+# Concrete spellings of the abstract paths.  Variant 1 uses a name that is not valid UTF-8 and one that
+# needs quoting in patch headers (a blank); str with surrogate escapes stands for the raw bytes.
+NAME_VARIANTS = [
+    {'a': 'a', 'b': 'b', 'd/c': 'd/c', 'd/e': 'd/e'},
+    {'a': 'a.c', 'b': b'b\xe9.txt'.decode('utf-8', 'surrogateescape'), 'd/c': 'd/c x.h', 'd/e': 'd/e'},
+]
+NAMES = NAME_VARIANTS[0]
+
+
+def set_names(variant):
+    global NAMES
+    NAMES = NAME_VARIANTS[variant % len(NAME_VARIANTS)]
+
+
+def conc(p):
+    return NAMES.get(p, p)
+
+
+def abstract(p):
+    for k, v in NAMES.items():
+        if v == p:
+            return k
+    return p
+
+
+def nbytes(s):
+    return s.encode('utf-8', 'surrogateescape')
+
 
 def block(k, v):
     return [b'ctx %d.%d\n' % (k, i) for i in (1, 2, 3)] + [b'cell %d = %d\n' % (k, v)] + [b'ctx %d.%d\n' % (k, i) for i in (4, 5, 6)]
@@ -63,7 +91,12 @@ def fp_hunks(fp):
 
 
 def name(p, pre):
-    return b'/dev/null' if p == 'NULL' else (pre + '/' + p).encode()
+    if p == 'NULL':
+        return b'/dev/null'
+    full = nbytes(pre + '/' + conc(p))
+    if any(c in full for c in b' \t"\\'):
+        return b'"' + full.replace(b'\\', b'\\\\').replace(b'"', b'\\"') + b'"'
+    return full
 
 
 def render_fp(fp, pre=('a', 'b')):
@@ -76,7 +109,7 @@ def render_fp(fp, pre=('a', 'b')):
         return b'diff --git ' + name(o, pre[0]) + b' ' + name(o, pre[1]) + b'\ndeleted file mode 100644\nindex e69de29..0000000\n'
     out = [b'diff --git ' + name(o, pre[0]) + b' ' + name(n, pre[1]) + b'\n']
     if fp['ren']:
-        out.append(b'rename from ' + o.encode() + b'\nrename to ' + n.encode() + b'\n')
+        out.append(b'rename from ' + nbytes(conc(o)) + b'\nrename to ' + nbytes(conc(n)) + b'\n')
     if fp['nmode'] != 'none':
         if fp['kind'] == 'C':
             out.append(b'new file mode 100' + fp['nmode'].encode() + b'\n')
@@ -96,7 +129,7 @@ def patch_name(i):
 def materialise(w, tree0, series, series_opts=None, strip_pre=('a', 'b')):
     for p, f in tree0.items():
         if f['ex']:
-            ws.write(w, p, content(f['cells']), int(f['mode'], 8) if f['mode'] != 'none' else 0o644)
+            ws.write(w, conc(p), content(f['cells']), int(f['mode'], 8) if f['mode'] != 'none' else 0o644)
     lines = []
     for i, pt in enumerate(series, 1):
         ws.write(w, 'patches/' + patch_name(i), b''.join(render_fp(fp, strip_pre) for fp in pt['fps']))
@@ -123,9 +156,9 @@ def expected_files(out, series, first=0, applied_before=()):
     exp = {}
     for p, f in out['tree'].items():
         if f['ex']:
-            exp[p] = (content(f['cells']), int(f['mode'], 8) if f['mode'] != 'none' else 0o644)
+            exp[conc(p)] = (content(f['cells']), int(f['mode'], 8) if f['mode'] != 'none' else 0o644)
     for b in out['backups']:
-        exp['.pc/%s/%s' % (patch_name(b['patch']), b['path'])] = (content(b['cells']),
+        exp['.pc/%s/%s' % (patch_name(b['patch']), conc(b['path']))] = (content(b['cells']),
                                                                   (int(b['mode'], 8) if b['mode'] != 'none' else None) if b['cells'] else None)
     return exp
 
@@ -149,8 +182,8 @@ def compare(snap, scenario, out, cfg, rc, stderr, first=0, names_before=()):
     files = {p: v for p, v in snap.items() if not p.endswith('/')}
     dirs = {p for p in snap if p.endswith('/')}
     rej_got = {p for p in files if p.endswith('.rej') and not p.startswith('.pc/')}
-    rej_req = {rej_name(r['path']) for r in out['rejects']}
-    rej_opt = {rej_name(r['path']) for r in out.get('rejectsOptional', [])}
+    rej_req = {rej_name(conc(r['path'])) for r in out['rejects']}
+    rej_opt = {rej_name(conc(r['path'])) for r in out.get('rejectsOptional', [])}
     if not (rej_req <= rej_got <= (rej_req | rej_opt)):
         probs.append(('rej-set', 'reject files %s, reference demands %s (optional %s)' % (sorted(rej_got), sorted(rej_req), sorted(rej_opt))))
     # reject contents: the failed hunks of every file patch of the failing patch for that file, in the order of the patch
@@ -158,7 +191,7 @@ def compare(snap, scenario, out, cfg, rc, stderr, first=0, names_before=()):
     if failing_idx:
         fps = series[failing_idx - 1]['fps']
         for r in list(out['rejects']) + list(out.get('rejectsOptional', [])):
-            rp = rej_name(r['path'])
+            rp = rej_name(conc(r['path']))
             if rp not in rej_got:
                 continue
             want = []
